@@ -11,6 +11,11 @@
 //	copy                            n = n.Copy()          -> ok
 //	reload                          n = DecodeProtobuf(n.RawData()) -> ok | err
 //	links | getlink <name> | data | marshal | rawdata | size
+//	tree | mjson (MarshalJSON, checked to parse) | getpb (GetPBNode) | stat
+//	ujson <data> <name:cid:size>...  UnmarshalJSON of {"data","links"}            -> ok | err
+//	addnode <name> <cid> <size> <childdata>   AddNodeLink(name, NodeWithData(childdata))
+//	updlink <name> <cid> <size> <childdata>   n = n.UpdateNodeLink(name, NodeWithData(childdata))
+//	reloadblock                     n = DecodeProtobufBlock(NewBlockWithCid(n.RawData(), n.Cid()))
 //	cid                             -> k=<builder> enc=<hex>: the (builder, bytes) pair whose hash the
 //	                                   returned CID is (looked up among all encodings seen so far x all
 //	                                   pool builders), so a stale CID shows up as an old builder / old bytes
@@ -19,6 +24,7 @@ package main
 
 import (
 	"bytes"
+	"encoding/json"
 	"fmt"
 	"math"
 	"sort"
@@ -26,6 +32,7 @@ import (
 	"strings"
 
 	"github.com/ipfs/boxo/ipld/merkledag"
+	blocks "github.com/ipfs/go-block-format"
 	cid "github.com/ipfs/go-cid"
 	format "github.com/ipfs/go-ipld-format"
 	mh "github.com/multiformats/go-multihash"
@@ -64,6 +71,15 @@ func sum(k int, b []byte) cid.Cid {
 }
 
 var names = []string{"", "a", "b", "ab", "a\x00", "\xc3\xa9", "\xff", "B", "aa", "a", "b"}
+
+var jsonNames = []string{"", "a", "b", "ab", "a\x00", "\xc3\xa9", "B", "aa", "a"}
+
+func childTok(r *vh.Rand) string {
+	d := r.Bytes(1 + r.Intn(6))
+	ch := merkledag.NodeWithData(d)
+	sz, _ := ch.Size()
+	return fmt.Sprintf("%s %d %s", vh.Hex(ch.Cid().Bytes()), sz, vh.Hex(d))
+}
 
 func linkCids() []cid.Cid {
 	var out []cid.Cid
@@ -121,7 +137,24 @@ func pbField(num int, wt protowire.Type, payload []byte) []byte {
 
 func genLinkMsg(r *vh.Rand, cids []cid.Cid) []byte {
 	var parts [][]byte
-	hash := pbField(1, 2, protowire.AppendBytes(nil, vh.Pick(r, cids).Bytes()))
+	cb := append([]byte(nil), vh.Pick(r, cids).Bytes()...)
+	switch r.Intn(16) {
+	case 0: // trailing bytes after the CID are ignored
+		cb = append(cb, r.Bytes(1+r.Intn(3))...)
+	case 1: // truncated
+		cb = cb[:r.Intn(len(cb))]
+	case 2: // version 2 / 0
+		cb[0] = byte(vh.Pick(r, []int{0, 2, 0x12}))
+	case 3: // non-minimal version varint
+		cb = append([]byte{0x81, 0x00}, cb[1:]...)
+	case 4: // bare sha2-256 multihash prefix with too few bytes
+		cb = append([]byte{0x12, 0x20}, r.Bytes(r.Intn(33))...)
+	case 5: // digest length larger than what follows
+		cb = []byte{0x01, 0x55, 0x12, 0x20, 1, 2, 3}
+	case 6: // CIDv0 followed by more bytes
+		cb = append(sum(0, []byte("q")).Bytes(), 9, 9)
+	}
+	hash := pbField(1, 2, protowire.AppendBytes(nil, cb))
 	name := pbField(2, 2, protowire.AppendBytes(nil, []byte(vh.Pick(r, names))))
 	ts := pbField(3, 0, protowire.AppendVarint(nil, vh.Pick(r, sizeClasses)))
 	if r.Chance(1, 10) {
@@ -244,7 +277,25 @@ func gen(r *vh.Rand, tier string, n int, emit func(vh.Case)) {
 			m = 2 + r.Intn(40)
 		}
 		for j := 0; j < m; j++ {
-			switch r.Intn(20) {
+			switch r.Intn(25) {
+			case 20:
+				c.Ops = append(c.Ops, vh.Pick(r, []string{"tree", "mjson", "getpb", "stat"}))
+			case 21:
+				var ls []string
+				for k, kk := 0, r.Intn(5); k < kk; k++ {
+					sz := vh.Pick(r, sizeClasses)
+					if r.Chance(1, 12) {
+						sz = 1 << 63
+					}
+					ls = append(ls, vh.Hex([]byte(vh.Pick(r, jsonNames)))+":"+vh.Hex(vh.Pick(r, cids).Bytes())+":"+strconv.FormatUint(sz, 10))
+				}
+				c.Ops = append(c.Ops, strings.TrimSpace("ujson "+dataTok(r)+" "+strings.Join(ls, " ")))
+			case 22:
+				c.Ops = append(c.Ops, vh.Pick(r, []string{"addnode ", "updlink "})+vh.Hex([]byte(vh.Pick(r, names)))+" "+childTok(r))
+			case 23:
+				c.Ops = append(c.Ops, "reloadblock")
+			case 24:
+				c.Ops = append(c.Ops, vh.Pick(r, []string{"tree", "stat", "mjson"}))
 			case 0, 1, 2, 3, 4:
 				c.Ops = append(c.Ops, "addlink "+linkTok(r, cids, " "))
 			case 5, 6:
@@ -356,6 +407,21 @@ type st struct {
 	table    map[string][2]string
 	muts     int
 	linkMuts int
+	dirty    bool // the node's links were mutated since they were last sorted
+	asGiven  bool // links installed by UnmarshalJSON on a clean node: kept "as serialized" until mutated
+}
+
+// expected result of Links(): stably sorted, except right after UnmarshalJSON on a clean node
+func (s *st) expectedLinks() []shadowLink {
+	if s.asGiven {
+		return s.links
+	}
+	return sortedShadow(s.links)
+}
+
+func (s *st) sortedNow() { s.dirty = false }
+func (s *st) mutatedLinks() {
+	s.dirty, s.asGiven = true, false
 }
 
 func (s *st) register(raw []byte) {
@@ -386,6 +452,17 @@ func (s *st) monitor(o *vh.Out, c cid.Cid, haveCid bool) {
 	if err != nil {
 		o.Fail("decode-own-encoding", "DecodeProtobuf(RawData()) failed: %v", err)
 		return
+	}
+	// the encoding must decode to what the node itself reports (Data(), Links() up to the codec's sort)
+	own := make([]shadowLink, 0)
+	for _, l := range s.n.Links() {
+		own = append(own, shadowLink{l.Name, l.Cid, l.Size})
+	}
+	if got, want := showLinks(dn.Links()), showShadow(sortedShadow(own)); got != want {
+		o.Fail("rawdata-disagrees-with-accessors", "decode(RawData()) has links %s, the node reports %s", got, want)
+	}
+	if showData(dn.Data()) != showData(s.n.Data()) && !(len(dn.Data()) == 0 && len(s.n.Data()) == 0) {
+		o.Fail("rawdata-disagrees-with-accessors", "decode(RawData()) has data %s, the node reports %s", showData(dn.Data()), showData(s.n.Data()))
 	}
 	want := showShadow(sortedShadow(s.links))
 	if got := showLinks(dn.Links()); got != want {
@@ -446,6 +523,7 @@ func exec(c vh.Case, o *vh.Out) {
 			d := parseData(f[1])
 			s.n = merkledag.NodeWithData(d)
 			s.links, s.data, s.builder, s.viaNil = nil, d, 0, false
+			s.dirty, s.asGiven = false, false
 			o.Emit("ok")
 		case "addlink":
 			l, sl := parseLink(f[1], f[2], f[3])
@@ -462,6 +540,7 @@ func exec(c vh.Case, o *vh.Out) {
 				s.links = append(s.links, sl)
 				s.muts++
 				s.linkMuts++
+				s.mutatedLinks()
 				o.Emit("ok")
 			}
 		case "rmlink":
@@ -481,6 +560,7 @@ func exec(c vh.Case, o *vh.Out) {
 			if err == nil {
 				s.muts++
 				s.linkMuts++
+				s.mutatedLinks()
 				o.Kind("rmlink-found")
 				o.Emit("ok")
 			} else if err == merkledag.ErrLinkNotFound {
@@ -504,6 +584,7 @@ func exec(c vh.Case, o *vh.Out) {
 				s.links = sls
 				s.muts++
 				s.linkMuts++
+				s.mutatedLinks()
 				o.Emit("ok")
 			}
 		case "setdata":
@@ -540,6 +621,7 @@ func exec(c vh.Case, o *vh.Out) {
 		case "copy":
 			s.n = s.n.Copy().(*merkledag.ProtoNode)
 			s.links = sortedShadow(s.links)
+			s.dirty, s.asGiven = false, false
 			if len(s.data) == 0 {
 				s.data = nil // Copy drops an empty non-nil Data
 			}
@@ -556,13 +638,18 @@ func exec(c vh.Case, o *vh.Out) {
 			}
 			s.n = m
 			s.links = sortedShadow(s.links)
+			s.dirty, s.asGiven = false, false
 			s.builder, s.viaNil = 0, false
 			o.Kind("reload")
 			o.Emit("ok")
 		case "links":
 			ls := s.n.Links()
-			if got, want := showLinks(ls), showShadow(sortedShadow(s.links)); got != want {
+			s.sortedNow()
+			if got, want := showLinks(ls), showShadow(s.expectedLinks()); got != want {
 				o.Fail("links-not-stably-sorted", "Links()=%s, want (stable sort by name of the node's links) %s", got, want)
+			}
+			if !s.asGiven {
+				s.links = sortedShadow(s.links)
 			}
 			o.Emit("%s", showLinks(ls))
 		case "getlink":
@@ -574,8 +661,172 @@ func exec(c vh.Case, o *vh.Out) {
 			}
 		case "data":
 			o.Emit("%s", showData(s.n.Data()))
+		case "tree":
+			ns := s.n.Tree("", -1)
+			s.sortedNow()
+			exp := s.expectedLinks()
+			hs := make([]string, len(ns))
+			for i, nm := range ns {
+				hs[i] = vh.Hex([]byte(nm))
+				if i >= len(exp) || exp[i].name != nm {
+					o.Fail("tree-order", "Tree() name %d = %q differs from the stably sorted links", i, nm)
+				}
+			}
+			if len(ns) != len(exp) {
+				o.Fail("tree-order", "Tree() returned %d names, node holds %d links", len(ns), len(exp))
+			}
+			if s.n.Tree("x", -1) != nil {
+				o.Fail("tree-path", "Tree of a non-empty path is not nil")
+			}
+			o.Emit("[%s]", strings.Join(hs, " "))
+		case "mjson":
+			b, err := s.n.MarshalJSON()
+			s.sortedNow()
+			if err != nil {
+				o.Emit("err")
+				break
+			}
+			var back struct {
+				Data  []byte         `json:"data"`
+				Links []*format.Link `json:"links"`
+			}
+			if err := json.Unmarshal(b, &back); err != nil {
+				o.Fail("json-unparsable", "MarshalJSON output does not parse: %v", err)
+			} else {
+				exp := s.expectedLinks()
+				if len(back.Links) != len(exp) || !bytes.Equal(back.Data, s.data) {
+					o.Fail("json-content", "MarshalJSON: %d links / data %x, node has %d links / data %x", len(back.Links), back.Data, len(exp), s.data)
+				}
+				for i, l := range back.Links {
+					if i < len(exp) && (l.Size != exp[i].size || !l.Cid.Equals(exp[i].cid)) {
+						o.Fail("json-content", "MarshalJSON link %d = (%v,%d), want (%v,%d)", i, l.Cid, l.Size, exp[i].cid, exp[i].size)
+					}
+				}
+			}
+			o.Kind("mjson")
+			o.Emit("ok")
+		case "ujson":
+			d := parseData(f[1])
+			var ls []*format.Link
+			var sls []shadowLink
+			valid := true
+			for _, t := range f[2:] {
+				p := strings.Split(t, ":")
+				l, sl := parseLink(p[0], p[1], p[2])
+				ls = append(ls, l)
+				sls = append(sls, sl)
+				if l.Size > math.MaxInt64 {
+					valid = false
+				}
+			}
+			js, err := json.Marshal(struct {
+				Data  []byte         `json:"data"`
+				Links []*format.Link `json:"links"`
+			}{d, ls})
+			if err != nil {
+				panic(err)
+			}
+			err = s.n.UnmarshalJSON(js)
+			if (err == nil) != valid {
+				o.Fail("ujson-result", "UnmarshalJSON err=%v, links valid=%v", err, valid)
+			}
+			if err != nil {
+				o.Kind("ujson-rejected")
+				o.Emit("err")
+			} else {
+				s.links, s.data = sls, d
+				s.asGiven = !s.dirty
+				s.muts++
+				o.Kind("ujson-ok")
+				o.Emit("ok")
+			}
+		case "getpb":
+			pbn := s.n.GetPBNode()
+			ss := make([]string, len(pbn.Links))
+			for i, l := range pbn.Links {
+				ss[i] = fmt.Sprintf("%s:%s:%d", vh.Hex([]byte(l.GetName())), vh.Hex(l.GetHash()), l.GetTsize())
+			}
+			o.Kind("getpb")
+			o.Emit("links=[%s] data=%s", strings.Join(ss, " "), showData(pbn.Data))
+		case "stat":
+			st, err := s.n.Stat()
+			s.sortedNow()
+			if err != nil {
+				o.Emit("err")
+				break
+			}
+			raw := s.n.RawData()
+			s.register(raw)
+			if st.BlockSize != len(raw) || st.NumLinks != len(s.links) || st.DataSize != len(s.data) {
+				o.Fail("stat-content", "Stat()=%+v, block %d bytes, %d links, data %d bytes", *st, len(raw), len(s.links), len(s.data))
+			}
+			hc, _ := cid.Decode(st.Hash)
+			id := "unknown-cid"
+			if v, ok := s.table[hc.KeyString()]; ok {
+				id = fmt.Sprintf("k=%s enc=%s", v[0], v[1])
+			}
+			o.Kind("stat")
+			o.Emit("n=%d block=%d links=%d data=%d cum=%d %s", st.NumLinks, st.BlockSize, st.LinksSize, st.DataSize, uint64(st.CumulativeSize), id)
+		case "addnode", "updlink":
+			name := string(vh.UnHex(f[1]))
+			child := merkledag.NodeWithData(vh.UnHex(f[4]))
+			csz, _ := child.Size()
+			if vh.Hex(child.Cid().Bytes()) != f[2] || strconv.FormatUint(csz, 10) != f[3] {
+				panic("c11: child node does not match the op line")
+			}
+			sl := shadowLink{name, child.Cid(), csz}
+			if f[0] == "addnode" {
+				if err := s.n.AddNodeLink(name, child); err != nil {
+					o.Fail("addlink-rejects-valid", "AddNodeLink: %v", err)
+					o.Emit("err")
+					break
+				}
+				s.links = append(s.links, sl)
+			} else {
+				m, err := s.n.UpdateNodeLink(name, child)
+				if err != nil {
+					o.Fail("addlink-rejects-valid", "UpdateNodeLink: %v", err)
+					o.Emit("err")
+					break
+				}
+				s.n = m
+				var keep []shadowLink
+				for _, l := range sortedShadow(s.links) {
+					if l.name != name {
+						keep = append(keep, l)
+					}
+				}
+				s.links = append(keep, sl)
+				if len(s.data) == 0 {
+					s.data = nil
+				}
+			}
+			s.muts++
+			s.linkMuts++
+			s.mutatedLinks()
+			o.Kind(f[0])
+			o.Emit("ok")
+		case "reloadblock":
+			raw := s.n.RawData()
+			s.register(raw)
+			blk, err := blocks.NewBlockWithCid(raw, s.n.Cid())
+			if err != nil {
+				panic(err)
+			}
+			nd, err := merkledag.DecodeProtobufBlock(blk)
+			if err != nil {
+				o.Fail("decode-own-encoding", "DecodeProtobufBlock(own block) failed: %v", err)
+				o.Emit("err")
+				break
+			}
+			s.n = nd.(*merkledag.ProtoNode)
+			s.links = sortedShadow(s.links)
+			s.dirty, s.asGiven, s.viaNil = false, false, false
+			o.Kind("reloadblock")
+			o.Emit("ok")
 		case "marshal":
 			b, err := s.n.Marshal()
+			s.sortedNow()
 			if err != nil {
 				o.Emit("err")
 			} else {
@@ -583,11 +834,13 @@ func exec(c vh.Case, o *vh.Out) {
 			}
 		case "rawdata":
 			raw := s.n.RawData()
+			s.sortedNow()
 			s.register(raw)
 			s.monitor(o, cid.Undef, false)
 			o.Emit("%s", vh.Hex(raw))
 		case "size":
 			sz, err := s.n.Size()
+			s.sortedNow()
 			s.register(s.n.RawData())
 			if err != nil {
 				o.Emit("err")
@@ -596,6 +849,7 @@ func exec(c vh.Case, o *vh.Out) {
 			}
 		case "cid":
 			cc := s.n.Cid()
+			s.sortedNow()
 			s.register(s.n.RawData())
 			s.monitor(o, cc, true)
 			cidReads++
